@@ -1282,7 +1282,7 @@ impl Channel {
         }
 
         // checked above
-        let (info2, sigs) = self.enforcement_state.next_holder_commit_info.take().unwrap();
+        let (info2, sigs) = self.enforcement_state.next_holder_commit_info.clone().unwrap();
         let incoming_payment_summary =
             self.enforcement_state.incoming_payments_summary(Some(&info2), None);
         let outgoing_payment_summary = self.enforcement_state.payments_summary(Some(&info2), None);
@@ -1293,6 +1293,17 @@ impl Channel {
         let delta =
             self.enforcement_state.claimable_balances(&*state, Some(&info2), None, &self.setup);
 
+        // The payments were validated when the commitment was validated, but other channels
+        // may have been updated since, so check again now that they are about to be applied.
+        state.validate_payments(
+            &self.id0,
+            &incoming_payment_summary,
+            &outgoing_payment_summary,
+            &delta,
+            validator.clone(),
+        )?;
+
+        self.enforcement_state.next_holder_commit_info = None;
         let (next_holder_commitment_point, maybe_old_secret) = self
             .advance_holder_commitment_state(
                 validator.clone(),
